@@ -125,6 +125,28 @@ def directed(name, quick):
                                 P.add(c, PB.M(q))
                                 cs.append(c)
                             out.append(P.steps)
+    if name == 'acqdir':
+        # measurements before / inside / after a repeated block; the indices are read at some point of the build, then the
+        # block is unrolled (already indexed measurements move) and the indices are read again
+        import itertools
+        for rep, qb, ql, tl, lead, when, kind in itertools.product((2, 3), (0, 1), (0, 1), ('', 'a'), (False, True), (0, 1, 2), ('full', 'ops')):
+            P = PB.Prog()
+            m = P.new()
+            if lead:
+                P.add(m, PB.M(0, 'a'))
+            if when == 0:
+                P._step(a='Obs', c=m, what=kind)
+            b = P.new(rep=rep)
+            P.add(b, PB.X(qb))
+            P.add(b, PB.M(qb))
+            P.add_sub(m, b)
+            if when == 1:
+                P._step(a='Obs', c=m, what=kind)
+            P.add(m, PB.M(ql, tl))
+            if when == 2:
+                P._step(a='Obs', c=m, what=kind)
+            P.act('Apply', m)
+            out.append(P.steps)
     if name == 'copyapplied':
         # a block of parallel operations, repeated, unrolled, THEN copied / nested; afterwards the registry duration changes
         for n in (2, 3):
@@ -157,9 +179,9 @@ SOURCES = {
     'C04': ('flat', 'nest', 'sim', 'repotests'),
     'C05': ('kinds', 'copyapplied', 'nest', 'sim'),
     'C06': ('unroll', 'unroll2', 'nest', 'sim', 'library'),
-    'C07': ('acq', 'sim'),
+    'C07': ('acq', 'acqdir', 'sim'),
     'C11': ('flatten', 'flatdir', 'sim', 'library'),
-    'C03': ('hist', 'plothist', 'acq', 'obsnest', 'sim'),
+    'C03': ('hist', 'plothist', 'acq', 'acqdir', 'obsnest', 'sim'),
     'C08': ('kinds', 'export', 'sim', 'library'),
     'C18': ('drawkinds', 'drawhist', 'drawnest'),
     'C15': ('kinds', 'export', 'qldir'),
@@ -257,7 +279,7 @@ M_Init == /\\ heap = DoNewCircuit(DoAddOp(DoNewCircuit(<<>>, "n1", NoLink, <<"fi
       reps=[('fixed', 2), ('fixed', 3)], acts=('NewCircuit', 'AddOp', 'AddSub', 'Apply'), linktypes=(), max_circs=2, max_objs=8,
       max_steps=6 if quick else 7, workers=8, min_emit=6, timeout=120, cap=1500 if quick else 20000,
       keep=lambda p: p[-1]['a'] == 'Apply' and any(s['a'] == 'AddSub' for s in p))
-    for dn in ('flatdir', 'copyapplied', 'qldir'):
+    for dn in ('flatdir', 'copyapplied', 'qldir', 'acqdir'):
         if dn in want:
             out.append({'name': dn, 'programs': directed(dn, quick), 'generated': 0, 'tlc_states': 0, 'tlc_generated': 0, 'mode': 'directed family (python)'})
             out[-1]['generated'] = len(out[-1]['programs'])
